@@ -338,3 +338,278 @@ func ruleEntryHandledInItsDatabase(w *core.World, r *core.Report) {
 		}
 	}
 }
+
+// ---------------------------------------------------------------- R20.20 whether an entry has a key is not read off the key's length (W37)
+
+// keyDerived: v is (computed from) the key of a snapshot entry: a load of
+// BinEntry.Key, a []byte / string result of a call that was handed such a
+// value (the hashtag rewrite, a bytes-to-string conversion), or a []byte /
+// string parameter at whose position some caller hands one in.
+func keyDerived(w *core.World, v ssa.Value, depth int) bool {
+	if v == nil || depth > 4 {
+		return false
+	}
+	isText := func(t types.Type) bool {
+		switch u := t.Underlying().(type) {
+		case *types.Basic:
+			return u.Info()&types.IsString != 0
+		case *types.Slice:
+			b, ok := u.Elem().Underlying().(*types.Basic)
+			return ok && b.Kind() == types.Byte
+		}
+		return false
+	}
+	found := false
+	core.Walk(v, func(x ssa.Value) bool {
+		if found {
+			return false
+		}
+		switch y := x.(type) {
+		case *ssa.UnOp:
+			if fa, ok := y.X.(*ssa.FieldAddr); ok && y.Op == token.MUL && core.FieldName(fa) == "Key" && strings.HasSuffix(core.TypeName(recordOf(fa)), "BinEntry") {
+				found = true
+				return false
+			}
+		case *ssa.Call:
+			if _, isB := y.Call.Value.(*ssa.Builtin); isB || !isText(y.Type()) {
+				return true
+			}
+			for _, a := range y.Call.Args {
+				if isText(a.Type()) && keyDerived(w, a, depth+1) {
+					found = true
+					return false
+				}
+			}
+		case *ssa.Parameter:
+			g := y.Parent()
+			if !isText(y.Type()) || g == nil {
+				return true
+			}
+			for _, cs := range callSitesOf(w, g) {
+				args := cs.(ssa.CallInstruction).Common().Args
+				for k, gp := range g.Params {
+					if gp == y && k < len(args) && keyDerived(w, args[k], depth+1) {
+						found = true
+						return false
+					}
+				}
+			}
+		}
+		return true
+	})
+	return found
+}
+
+// excludesEmptyKey: the fact can only hold when a snapshot key is not the empty string: len(key) compared
+// with a constant in a way that 0 does not satisfy, or key != "".
+func excludesEmptyKey(w *core.World, fct core.Fact) bool {
+	c, ok := core.FactCmp(fct)
+	if !ok {
+		return false
+	}
+	x, y, op := c.X, c.Y, c.Op
+	if _, isC := x.(*ssa.Const); isC {
+		x, y = y, x
+		op = map[token.Token]token.Token{token.LSS: token.GTR, token.LEQ: token.GEQ, token.GTR: token.LSS, token.GEQ: token.LEQ, token.EQL: token.EQL, token.NEQ: token.NEQ}[op]
+	}
+	if s, isS := core.ConstString(y); isS {
+		return s == "" && op == token.NEQ && keyDerived(w, x, 0)
+	}
+	n, isN := core.ConstInt(y)
+	if !isN {
+		return false
+	}
+	call, isCall := core.Unwrap(x).(*ssa.Call)
+	if !isCall || !isBuiltin(call, "len") || len(call.Call.Args) != 1 {
+		return false
+	}
+	holdsForZero := map[token.Token]bool{token.LSS: 0 < n, token.LEQ: 0 <= n, token.GTR: 0 > n, token.GEQ: 0 >= n, token.EQL: 0 == n, token.NEQ: 0 != n}[op]
+	return !holdsForZero && keyDerived(w, call.Call.Args[0], 0)
+}
+
+// ruleKeylessIsNotEmptyKey: the empty string is a legal Redis key, and the
+// snapshot loader delivers such an entry with a Key of length 0 and an
+// ordinary object type. What has no key are function and aux entries — which
+// the object type says. In the bidirectional unit builder every piece of the
+// key-exists mechanism — the EXISTS probe, the DEL of the replace policy, the
+// choice of RESTORE (which carries REPLACE and the expiry), the memo of an
+// ignored chunked key, the PEXPIRE behind the expanded commands — must
+// therefore not stand under a branch that can be taken only when the key is
+// not empty: under such a guard the key "" gets no probe, no DEL, no expiry;
+// under all three policies the snapshot's value is merged into whatever the
+// target holds under "" and the old expiry stays (W37).
+func ruleKeylessIsNotEmptyKey(w *core.World, r *core.Report) {
+	f := fn(w, r, "(*syncer.RedisOutput).buildBisyncRdbReplayUnit")
+	if f == nil {
+		return
+	}
+	guardOf := func(in ssa.Instruction) (core.Fact, bool) {
+		for _, fct := range core.FactsAt(in.Block()) {
+			if excludesEmptyKey(w, fct) {
+				return fct, true
+			}
+		}
+		return core.Fact{}, false
+	}
+	type piece struct {
+		what string
+		in   ssa.Instruction
+	}
+	isDelStore := func(in ssa.Instruction, cmd string) bool {
+		st, ok := in.(*ssa.Store)
+		if !ok {
+			return false
+		}
+		s, isS := core.ConstString(st.Val)
+		return isS && s == cmd
+	}
+	// (a) in the builder: probe, DEL, RESTORE choice, memo calls
+	var inBuilder []piece
+	var memoFns []*ssa.Function
+	for _, in := range core.Instrs(f) {
+		if isDelStore(in, "del") {
+			inBuilder = append(inBuilder, piece{"the DEL of the replace policy", in})
+		}
+		ci, ok := in.(*ssa.Call)
+		if !ok {
+			continue
+		}
+		s := core.ResolveCall(ci)
+		switch {
+		case s.Method == "Do":
+			if cmd, isCmd := core.CmdName(s); isCmd && cmd == "exists" {
+				inBuilder = append(inBuilder, piece{"the EXISTS probe", in})
+			}
+		case s.Name == "syncer.captureBisyncRdbRestoreCommand":
+			inBuilder = append(inBuilder, piece{"the RESTORE form (REPLACE, expiry)", in})
+		case s.Callee != nil && s.Recv() != nil && strings.HasSuffix(core.TypeName(derefT(s.Recv().Type())), "bisyncRdbReplayState"):
+			inBuilder = append(inBuilder, piece{"the memo of an ignored key (" + s.Method + ")", in})
+			memoFns = append(memoFns, s.Callee)
+		}
+	}
+	{
+		bad := ""
+		var pos token.Pos = f.Pos()
+		var guardedPieces []string
+		guardText := ""
+		for _, pc := range inBuilder {
+			if fct, guarded := guardOf(pc.in); guarded {
+				if guardText == "" {
+					guardText, pos = factText(fct), pc.in.Pos()
+				}
+				dup := false
+				for _, g := range guardedPieces {
+					if g == pc.what {
+						dup = true
+					}
+				}
+				if !dup {
+					guardedPieces = append(guardedPieces, pc.what)
+				}
+			}
+		}
+		if len(guardedPieces) > 0 {
+			bad = strings.Join(guardedPieces, ", ") + " — stand(s) under `" + guardText + "`"
+		}
+		if len(inBuilder) < 4 {
+			r.Undecided("buildBisyncRdbReplayUnit/keyless-is-not-empty-key", f.Pos(), "expected the EXISTS probe, the DEL of the replace policy, the RESTORE builder and the memo calls in the unit builder, found %d of them", len(inBuilder))
+		} else {
+			r.Check(bad == "", "buildBisyncRdbReplayUnit/keyless-is-not-empty-key", pos, "%s, a test that the empty key fails: \"\" is a legal key (the loader delivers it with an ordinary object type), so a snapshot entry stored under it bypasses the key-exists policy — no probe under ignore/error, no DEL / REPLACE under replace, and its value is merged into what the target holds under \"\". Whether an entry has a key is what its object type says (function and aux entries have none)", bad)
+		}
+	}
+	// (b) the expiry behind the expanded commands, wherever the builder's helpers append it
+	{
+		n := 0
+		bad := ""
+		var pos token.Pos = f.Pos()
+		name := ""
+		for _, g := range reachableFuncs(f) {
+			for _, h := range core.DeepFuncs(g) {
+				for _, in := range core.OwnInstrs(h) {
+					if !isDelStore(in, "pexpire") {
+						continue
+					}
+					n++
+					if name == "" {
+						name = shortName(core.FuncName(g))
+					}
+					if fct, guarded := guardOf(in); guarded && bad == "" {
+						bad, pos, name = "the PEXPIRE that carries the snapshot's expiry stands under `"+factText(fct)+"`", in.Pos(), shortName(core.FuncName(g))
+					}
+				}
+			}
+		}
+		if n == 0 {
+			r.Undecided("buildBisyncRdbReplayUnit/expiry-of-the-empty-key", f.Pos(), "the PEXPIRE appended behind the expanded commands was not found in the functions the unit builder uses")
+		} else {
+			r.Check(bad == "", name+"/expiry-of-the-empty-key", pos, "%s, a test that the empty key fails: a value replayed by native commands under the key \"\" loses its expiry (under replace the target does not end with the snapshot's expiry)", bad)
+		}
+	}
+	// (c) inside the memo: what is recorded and what is answered
+	{
+		n := 0
+		bad := ""
+		var pos token.Pos = f.Pos()
+		seen := map[*ssa.Function]bool{}
+		for _, g := range memoFns {
+			if seen[g] || len(g.Params) < 2 {
+				continue
+			}
+			seen[g] = true
+			for _, in := range core.OwnInstrs(g) {
+				switch x := in.(type) {
+				case *ssa.Store:
+					if _, isFa := x.Addr.(*ssa.FieldAddr); !isFa {
+						continue
+					}
+				case *ssa.Return:
+					if len(x.Results) == 0 {
+						continue
+					}
+					if _, isC := x.Results[0].(*ssa.Const); isC {
+						continue
+					}
+				default:
+					continue
+				}
+				n++
+				if fct, guarded := guardOf(in); guarded && bad == "" {
+					bad, pos = shortName(core.FuncName(g))+" records / answers only under `"+factText(fct)+"`", in.Pos()
+				}
+			}
+		}
+		if n == 0 {
+			r.Undecided("bisyncRdbReplayState/memo-of-the-empty-key", f.Pos(), "the memo of an ignored chunked key (a method of the replay state that takes the key) was not found")
+		} else {
+			r.Check(bad == "", "bisyncRdbReplayState/memo-of-the-empty-key", pos, "%s, a test that the empty key fails: under ignore the later chunks of a chunked value stored under \"\" are not skipped and are merged into the existing key", bad)
+		}
+	}
+}
+
+func derefT(t types.Type) types.Type {
+	if p, ok := t.Underlying().(*types.Pointer); ok {
+		return p.Elem()
+	}
+	return t
+}
+
+// factText renders a branch fact for a message (the comparison as it holds).
+func factText(fct core.Fact) string {
+	c, ok := core.FactCmp(fct)
+	if !ok {
+		return fct.Cond.String()
+	}
+	side := func(v ssa.Value) string {
+		if k, isC := v.(*ssa.Const); isC {
+			if s, isS := core.ConstString(k); isS {
+				return "\"" + s + "\""
+			}
+			return k.Value.String()
+		}
+		if call, isCall := core.Unwrap(v).(*ssa.Call); isCall && isBuiltin(call, "len") {
+			return "len(<key>)"
+		}
+		return "<key>"
+	}
+	return side(c.X) + " " + c.Op.String() + " " + side(c.Y)
+}
